@@ -519,6 +519,10 @@ def check_locks_released(repo: Repo, rep: Report) -> None:
                 continue
             st = enclosing(c, (ast.stmt,))
             res = st.targets[0].id if isinstance(st, ast.Assign) and isinstance(st.targets[0], ast.Name) else None
+            may_fail = bool(c.args) or any(k.arg in ("timeout", "blocking") and not (k.arg == "blocking" and isinstance(k.value, ast.Constant) and k.value.value is True) for k in c.keywords)
+            if may_fail and isinstance(st, ast.Expr) and st.value is c:
+                rep.fail("lock-released", fq, st, f"`{norm(c)}` can return without the lock (timeout / non-blocking) but its result is discarded: the release() that follows then releases a lock this thread does not hold - it is taken away from the thread that does (whose own `with` exit raises RuntimeError('release unlocked lock') in the middle of its work) and mutual exclusion on the AE-wide lock is gone", mod=m, node=c)
+                continue
 
             def via(nd, recv=recv, res=res):
                 a = nd.ast
